@@ -48,6 +48,7 @@ type Report struct {
 	Notes         []string
 	SelfTest      *SelfTestResult
 	Floors        map[string][2]int // rule -> {found, floor}
+	borrowed      bool              // evaluated on behalf of another property (see Borrow)
 }
 
 func NewReport(prop, tier string) *Report {
@@ -275,6 +276,7 @@ func (r *Report) Finish(start time.Time, explanation string, nd []string, truste
 func (r *Report) child() *Report {
 	c := NewReport(r.Prop, r.Tier)
 	c.config = r.config
+	c.borrowed = r.borrowed
 	return c
 }
 
@@ -338,5 +340,38 @@ func (r *Report) absorb(c *Report) {
 	r.Notes = append(r.Notes, c.Notes...)
 	for k, v := range c.Floors {
 		r.Floors[k] = v
+	}
+}
+
+// Borrow evaluates the rules of another property on the same program and records the selected
+// obligations under this property's own rule ids: one structural fact can be a necessary condition
+// of several properties, and a property's check must fire on its own when the fact is broken.
+// m maps the lender's rule id to the id it is recorded under; keep (optional) selects constructs.
+func (r *Report) Borrow(p *Prog, run func(*Prog, *Report), m map[string]string, keep func(Ob) bool) {
+	if r.borrowed {
+		return // a lender evaluated on behalf of a borrower does not borrow in turn
+	}
+	c := r.child()
+	c.borrowed = true
+	run(p, c)
+	n := map[string]int{}
+	for _, o := range c.Obs {
+		to, ok := m[o.Rule]
+		if !ok || (keep != nil && !keep(o)) {
+			continue
+		}
+		o.Msg += " [rule " + o.Rule + ", shared]"
+		if o.Kind == KFloor && keep != nil {
+			continue
+		}
+		o.Rule = to
+		r.add(o)
+		n[to]++
+	}
+	for k := range c.FuncsAnalysed {
+		r.FuncsAnalysed[k] = true
+	}
+	for from, to := range m {
+		r.Floor(to, n[to], 1, "obligations shared from "+from)
 	}
 }
